@@ -5,6 +5,7 @@ import ast
 
 from ..core import AnalysisError, rule
 from .. import lispread as L
+from .. import minipy as M
 from .. import pyfacts as P
 from ..pycfg import CFG
 
@@ -20,8 +21,8 @@ EXPLANATION = (
     "maps) and must equal the closure-update equations that keep ancestors = transitive closure of parents and descendants = its "
     "inverse; the query functions read the component they are named after and isa? goes through ancestors."
 )
-DECIDES = "write=>reset pairing, staleness-check dominance, cache fill sources, hierarchy-by-reference, derive/underive update equations (consistency of parents/ancestors/descendants/isa?)"
-DECLINED = "uniqueness/ambiguity of the best match over concrete method tables (a set-valued computation on runtime values); class tags whose superclasses carry derived ancestors"
+DECIDES = "write=>reset pairing, staleness-check dominance, cache fill sources, hierarchy-by-reference, derive/underive update equations (consistency of parents/ancestors/descendants/isa?), best-match search = unique strict dominator in every table order (exhaustive over all relational structures on three keys, interpreted without importing the repository)"
+DECLINED = "method tables with more than three mutually related matching keys (the exhaustive evaluation stops at three); class tags whose superclasses carry derived ancestors"
 TRUSTED = ["threading.Lock semantics", "persistent maps are values (C04)"]
 ASSUMPTIONS = []
 
@@ -537,6 +538,147 @@ def r5_hierarchy_components_consistent(ctx):
     ctx.ob("C18.R5", f"{CORE}::make-hierarchy::three empty components", CORE, mh.line, ok, "" if ok else "make-hierarchy does not start from three empty maps")
 
 
+# ---------------------------------------------------------------------------------------------
+# R6 the best-match search, evaluated exhaustively over every relational structure on three keys
+
+
+class _Lock(M.Host):
+    is_lock = True
+
+
+class _PMap(M.Host):
+    """Model of a persistent map whose iteration order is a parameter (trusted fact: the order of
+    IPersistentMap.items() is unspecified, so every permutation is a possible table)."""
+
+    def __init__(self, items):
+        self._items = tuple(items)
+
+    def items(self):
+        return self._items
+
+    def val_at(self, k, default=None):
+        for a, b in self._items:
+            if a == k:
+                return b
+        return default
+
+    def assoc(self, k, v):
+        return _PMap([(a, b) for a, b in self._items if a != k] + [(k, v)])
+
+    def dissoc(self, k):
+        return _PMap([(a, b) for a, b in self._items if a != k])
+
+    def __eq__(self, other):
+        return isinstance(other, _PMap) and dict(self._items) == dict(other._items)
+
+    def __hash__(self):
+        return 0
+
+
+class _Var(M.Host):
+    def __init__(self, value):
+        self.value = value
+
+
+class _Ref(M.Host):
+    def deref(self):
+        return "H"
+
+
+def _structures():
+    """(isa strict partial order on {0,1,2}, upward-closed set of keys matching the dispatch value,
+    direct preferences without opposite pairs), one representative per isomorphism class."""
+    import itertools
+    K = (0, 1, 2)
+    pairs = [(a, b) for a in K for b in K if a != b]
+    seen = set()
+    for bits in itertools.product((0, 1), repeat=6):
+        isa = frozenset(p for p, b in zip(pairs, bits) if b)
+        if any((b, a) in isa for a, b in isa):
+            continue
+        if any((a, b) in isa and (b, c) in isa and a != c and (a, c) not in isa for a in K for b in K for c in K):
+            continue
+        for r in range(4):
+            for match in itertools.combinations(K, r):
+                if any(a in match and b not in match for a, b in isa):
+                    continue
+                for st in itertools.product((0, 1, 2), repeat=3):
+                    pref = set()
+                    for (a, b), s in zip(((0, 1), (0, 2), (1, 2)), st):
+                        if s == 1:
+                            pref.add((a, b))
+                        elif s == 2:
+                            pref.add((b, a))
+                    canon = min(
+                        (tuple(sorted((m[a], m[b]) for a, b in isa)), tuple(sorted(m[x] for x in match)), tuple(sorted((m[a], m[b]) for a, b in pref)))
+                        for m in (dict(zip(K, p)) for p in itertools.permutations(K))
+                    )
+                    if canon in seen:
+                        continue
+                    seen.add(canon)
+                    yield canon
+
+
+@rule("C18.R6", floor=300)
+def r6_best_match_is_the_unique_most_specific(ctx):
+    """MultiFunction.get_method (cache empty, hierarchy unchanged) is interpreted -- minipy, the
+    repository is not imported -- on every relational structure over three method keys: every
+    strict partial order `isa` among them, every upward-closed set of keys the dispatch value is-a,
+    every set of direct preferences without an opposite pair, and every iteration order of the
+    method table (6 permutations; a default method is present).  The code touches keys only through
+    _is_a / _has_preference, so these structures are all the behaviours there are on three keys.
+    Expected: nothing matches -> the default method; exactly one matching key precedes every other
+    matching key (preference or isa) without being preceded by it -> that key's method; otherwise a
+    RuntimeException -- and the same outcome for every iteration order."""
+    import itertools
+    cls = _mf(ctx)
+    model = M.ClassModel(cls)
+    if model.find("get_method") is None:
+        raise AnalysisError("anchor vanished: MultiFunction.get_method")
+    K = (0, 1, 2)
+    n_eval = 0
+    for isa, match, pref in _structures():
+        isa_s, match_s, pref_s = set(isa), set(match), set(pref)
+
+        def is_a(h, tag, parent, isa_s=isa_s, match_s=match_s):
+            if tag == parent:
+                return True
+            if tag == "d":
+                return parent in match_s
+            return (tag, parent) in isa_s
+
+        def prec(a, b, isa_s=isa_s, pref_s=pref_s):
+            return (a, b) in pref_s or (a, b) in isa_s
+        winners = [w for w in match if all(prec(w, k) and not prec(k, w) for k in match if k != w)]
+        expected = "DEFAULT" if not match else (f"m{winners[0]}" if len(winners) == 1 else "raise RuntimeException")
+        prefers = _PMap([(a, frozenset(b for x, b in pref if x == a)) for a in K if any(x == a for x, _ in pref)])
+        outcomes = {}
+        for order in itertools.permutations(K):
+            methods = _PMap([("default", "DEFAULT")] + [(k, f"m{k}") for k in order])
+            obj = M.Obj(model, _methods=methods, _prefers=prefers, _cache=_PMap([]), _lock=_Lock(), _isa=_Var(is_a),
+                        _hierarchy=_Ref(), _cached_hierarchy="H", _default="default", _name="mm", _dispatch=None)
+            it = M.Interp(fuel=20000)
+            try:
+                out = it.call_function(model.find("get_method"), [obj, "d"], {})
+            except M.PyRaise as e:
+                out = f"raise {e.name}"
+            except M.Unsupported as e:
+                raise AnalysisError(f"C18.R6 cannot interpret MultiFunction.get_method: {e}")
+            n_eval += 1
+            outcomes.setdefault(out, order)
+        inst = f"{MF}::MultiFunction.get_method::isa={sorted(isa)} matching={sorted(match)} prefers={sorted(pref)}"
+        ok = set(outcomes) == {expected}
+        why = ""
+        if not ok:
+            if len(outcomes) > 1:
+                why = "the outcome depends on the iteration order of the method table: " + "; ".join(f"order {list(o)} -> {r}" for r, o in sorted(outcomes.items(), key=str)) + f" (expected {expected} in every order)"
+            else:
+                why = f"every order gives {next(iter(outcomes))}, expected {expected}"
+        ctx.ob("C18.R6", inst, MF, model.find("get_method").lineno, ok, why,
+               witness="keys k0 k1 k2 with (derive ki kj) for each isa pair, the dispatch value derived from the matching keys, (prefer-method m ki kj) for each preference; the table order varies with PYTHONHASHSEED")
+    ctx.note(f"C18.R6 interpreted get_method {n_eval} times")
+
+
 SELFTEST = [
     {"name": "derive forgets the parent itself among the ancestors' descendants", "file": CORE, "expect": "C18.R5",
      "old": "                            (:descendants h)\n                            (conj parent-ancestors parent))})))", "new": "                            (:descendants h)\n                            parent-ancestors)})))"},
@@ -559,6 +701,16 @@ SELFTEST = [
     {"name": "twin: underive always keeps the (possibly empty) parent set", "file": CORE, "expect": None,
      "old": "         new-parents (if (seq tag-parents)\n                       (assoc (:parents h) tag tag-parents)\n                       (dissoc (:parents h) tag))]",
      "new": "         new-parents (assoc (:parents h) tag tag-parents)]"},
+    {"name": "verification pass dropped: single scan against the running best (the repaired defect)", "file": MF, "expect": "C18.R6",
+     "old": "            for method_key, _ in matches:\n                if method_key is not best_key and (\n                    not self._precedes(best_key, method_key)\n                    or self._precedes(method_key, best_key)\n                ):\n",
+     "new": "            for method_key, _ in matches[-1:]:\n                if method_key is not best_key and (\n                    not self._precedes(best_key, method_key)\n                    or self._precedes(method_key, best_key)\n                ):\n"},
+    {"name": "mutual precedence tolerated", "file": MF, "expect": "C18.R6",
+     "old": "                    not self._precedes(best_key, method_key)\n                    or self._precedes(method_key, best_key)\n", "new": "                    not self._precedes(best_key, method_key)\n"},
+    {"name": "default method shadows a match", "file": MF, "expect": "C18.R6",
+     "old": "            if best_method is None:\n                best_method = self._methods.val_at(self._default)\n", "new": "            best_method = self._methods.val_at(self._default) or best_method\n"},
+    {"name": "twin: candidate chosen with a while loop over the matches", "file": MF, "expect": None,
+     "old": "            for method_key, method in matches:\n                if best_key is None or self._precedes(method_key, best_key):\n                    best_key, best_method = method_key, method\n",
+     "new": "            for pair in matches:\n                method_key, method = pair\n                if best_key is None:\n                    best_key, best_method = method_key, method\n                elif self._precedes(method_key, best_key):\n                    best_key, best_method = method_key, method\n"},
     {"name": "prefer_method forgets reset", "file": MF, "expect": "C18.R1",
      "old": "            self._prefers = self._prefers.assoc(preferred_key, existing.cons(other_key))\n            self._reset_cache()\n",
      "new": "            self._prefers = self._prefers.assoc(preferred_key, existing.cons(other_key))\n"},
